@@ -120,6 +120,12 @@ func (fc *formCtx) form(e ast.Expr) *bform {
 		if f, ok := fc.benv[fc.g.info.ObjectOf(x)]; ok {
 			return f
 		}
+		// a boolean local that is defined once and never reassigned (selected := a && b && c; if selected {...})
+		if def := singleBoolDef(fc.g, fc.g.info.ObjectOf(x)); def != nil && fc.depth < 5 {
+			inner := *fc
+			inner.depth++
+			return inner.form(def)
+		}
 	case *ast.CallExpr:
 		// inline a repo predicate: a single return, or a chain of `if c { return x }` guards ending in a return
 		if fn := fc.g.calleeOf(x); fn != nil && fc.depth < 5 {
@@ -465,4 +471,72 @@ func counterexampleQ(when, then *bform, constraint *bform, forallOpaque bool) st
 		recT(0)
 	}
 	return found
+}
+
+var boolDefsMemo = map[*goLayouts]map[types.Object]ast.Expr{}
+
+// singleBoolDef: the defining expression of a boolean local that has exactly one definition and no other assignment.
+func singleBoolDef(g *goLayouts, obj types.Object) ast.Expr {
+	if obj == nil {
+		return nil
+	}
+	m, ok := boolDefsMemo[g]
+	if !ok {
+		m = map[types.Object]ast.Expr{}
+		count := map[types.Object]int{}
+		for _, f := range g.p.Pkgs[g.pkg].Syntax {
+			ast.Inspect(f, func(n ast.Node) bool {
+				switch x := n.(type) {
+				case *ast.AssignStmt:
+					for i, l := range x.Lhs {
+						id, ok := l.(*ast.Ident)
+						if !ok {
+							continue
+						}
+						o := g.info.ObjectOf(id)
+						if o == nil {
+							continue
+						}
+						count[o]++
+						if x.Tok == token.DEFINE && len(x.Lhs) == len(x.Rhs) {
+							m[o] = x.Rhs[i]
+						}
+					}
+				case *ast.ValueSpec:
+					for i, id := range x.Names {
+						if o := g.info.ObjectOf(id); o != nil {
+							count[o]++
+							if i < len(x.Values) {
+								m[o] = x.Values[i]
+							}
+						}
+					}
+				case *ast.IncDecStmt, *ast.UnaryExpr:
+					// address-taken or modified variables are not tracked here
+					if u, ok := x.(*ast.UnaryExpr); ok && u.Op == token.AND {
+						if id, ok := u.X.(*ast.Ident); ok {
+							if o := g.info.ObjectOf(id); o != nil {
+								count[o] += 2
+							}
+						}
+					}
+				}
+				return true
+			})
+		}
+		for o, c := range count {
+			if c != 1 {
+				delete(m, o)
+			}
+		}
+		boolDefsMemo[g] = m
+	}
+	def := m[obj]
+	if def == nil {
+		return nil
+	}
+	if b, ok := obj.Type().Underlying().(*types.Basic); !ok || b.Kind() != types.Bool {
+		return nil
+	}
+	return def
 }
